@@ -7,21 +7,33 @@
 // Streams
 //   real   : PoissonLogLikelihoodWithLinearModelForMeanAndProjData + ProjMatrixByBinUsingRayTracing, Poisson data,
 //            additive on/off, normalisation on/off, (subset) sensitivities, no prior / quadratic / RDP prior x additive /
-//            multiplicative MAP model, relative-change clamps, inter-update / inter-iteration filters, every legal number
-//            of subsets, start subset, enforce_initial_positivity on/off.  One sub-iteration at a time through
+//            multiplicative MAP model, relative-change clamps, inter-update / inter-iteration filters (a harness-defined
+//            DataProcessor that records what it is given), every number of subsets the library accepts, start subset,
+//            enforce_initial_positivity on/off.  One sub-iteration at a time through the public API:
 //            set_start_subiteration_num(k); set_num_subiterations(k); reconstruct(image).
+//            The data of the model come from a second, identically configured objective function object (probe).
 //   synth  : the same class with its documented protected virtual hooks
 //            (compute_sub_gradient_without_penalty_plus_sensitivity / get_subset_sensitivity) and a harness-defined prior
 //            feeding adversarial data (zeros, tiny values, negatives, values around every clamp) to the update rule.
+//   setup  : what set_up does to start images of every kind (positive, zeros, negatives, nothing positive).
+//   chk    : malformed stream: parameter values at and beyond the documented ranges, set_up (or the setter) must refuse
+//            exactly those.
 // Oracle (property statement on the implementation; <implfile>.oracle)
-//   formula      : explicit system matrix P (rows from the real ProjMatrixByBin), textbook EM formula per voxel
+//   formula      : explicit system matrix P (rows from the real ProjMatrixByBin), textbook EM formula per voxel; the subset
+//                  sensitivities / gradient-plus-sensitivity / total sensitivity themselves against the explicit matrix
 //   nonneg       : non-negative image stays non-negative
 //   counts       : one subset, no additive: sum_j s_j lambda'_j = sum_b y_b
-//   monotone     : one subset, no prior: Poisson log-likelihood (compute_objective_function) does not decrease
+//   monotone     : one subset, no prior: Poisson log-likelihood (compute_objective_function) does not decrease, and equals
+//                  the textbook value
 //   mapden       : implied MAP denominator g*lambda/lambda' within [s/10, 10 s]
 //   stepwise     : images of the one-at-a-time run = images saved by one uninterrupted reconstruct() (bitwise)
-//   restart      : for every k, a fresh object started at k+1 from the file saved after k reproduces all later saved
-//                  images bitwise (enforce_initial_positivity on and off)
+//   saving       : with save_interval s exactly the iterates k % s == 0 and the last one are written (absolute numbering)
+//   history      : objects first used with another number of subsets, re-configured and set_up again = fresh objects (bitwise)
+//   restart      : for every k, a fresh object started at k+1 from the Interfile image saved after k reproduces all later
+//                  saved images bitwise (enforce_initial_positivity on and off); with the option on (default) and exact
+//                  zeros in the saved image this FAILS on the unchanged tree: KNOWN-CANDIDATE
+//                  restart:enforce-initial-positivity-lifts-exact-zeros
+//   refusal      : set_up refuses numbers of subsets that are not balanced
 // Usage: c07_osmaposl <seed> <quick|thorough> <opsfile> <implfile>
 #include "stir_fixtures.h"
 #include "common.h"
@@ -1192,6 +1204,78 @@ run_setup_case(const Geo& g, const Data& d, vh::Rng& rng)
     oracle_fail("setup-positivity (setup-only stream) kind=" + std::to_string(kind));
 }
 
+// ------------------------------------------------------------------------------------------------ malformed stream
+// parameter ranges: set_up (or the setter) must refuse exactly the configurations the documentation excludes
+static void
+run_range_cases(const Geo& g, const Data& d, vh::Rng& rng, const std::vector<int>& legal, int count)
+{
+  for (int t = 0; t < count; ++t)
+    {
+      const int bad = rng.range(0, 8); // which parameter is pushed out of range (8: none)
+      int ns = legal[rng.range(0, static_cast<int>(legal.size()) - 1)];
+      int N = rng.range(1, 4);
+      int ss = rng.range(0, ns - 1), start = rng.range(1, N + 1), save = rng.range(1, N), ii = rng.range(0, 2), iu = rng.range(0, 2);
+      switch (bad)
+        {
+        case 0:
+          ns = -rng.range(0, 1);
+          ss = 0;
+          break;
+        case 1:
+          N = -rng.range(0, 1);
+          save = 1;
+          break;
+        case 2:
+          ss = rng.coin() ? -1 : ns + rng.range(0, 1);
+          break;
+        case 3:
+          start = -rng.range(0, 1);
+          break;
+        case 4:
+          save = rng.coin() ? 0 : N + 1;
+          break;
+        case 5:
+          ii = -1;
+          break;
+        case 6:
+          iu = -1;
+          break;
+        case 7: // boundary values that are legal
+          ss = ns - 1;
+          save = N;
+          start = N + 1;
+          break;
+        default:
+          break;
+        }
+      bool ok = true;
+      try
+        {
+          shared_ptr<ObjT> obj = make_obj(g, d, RunCfg());
+          OSMAPOSLReconstruction<TargetT> r;
+          r.set_objective_function_sptr(obj);
+          r.set_num_subsets(ns);
+          r.set_start_subset_num(ss);
+          r.set_num_subiterations(N);
+          r.set_start_subiteration_num(start);
+          r.set_save_interval(save);
+          r.set_inter_iteration_filter_interval(ii);
+          r.set_inter_update_filter_interval(iu);
+          r.set_disable_output(true);
+          shared_ptr<TargetT> im(g.tmpl->clone());
+          im->fill(1.F);
+          ok = r.set_up(im) == Succeeded::yes;
+        }
+      catch (std::exception&)
+        {
+          ok = false;
+        }
+      std::fprintf(g_ops, "chk %d %d %d %d %d %d %d\n", ns, ss, N, start, save, ii, iu);
+      std::fprintf(g_out, "%s\n", ok ? "ok" : "err");
+      g_cov[ok ? "range_cases_accepted" : "range_cases_refused"]++;
+    }
+}
+
 // ------------------------------------------------------------------------------------------------ main
 int
 main(int argc, char** argv)
@@ -1215,7 +1299,7 @@ main(int argc, char** argv)
       return 3;
   }
 
-  const int ngeo = thorough ? 36 : 8;
+  const int ngeo = thorough ? 72 : 8;
   int case_no = 0;
   for (int gi = 0; gi < ngeo; ++gi)
     {
@@ -1310,6 +1394,8 @@ main(int argc, char** argv)
             run_synth_case(g, d, rng, rng.range(2, 4), legal);
           for (int s = 0; s < (thorough ? 16 : 8); ++s)
             run_setup_case(g, d, rng);
+          if (di == 0)
+            run_range_cases(g, d, rng, legal, thorough ? 40 : 20);
         }
     }
 
